@@ -183,7 +183,7 @@ NOT_APPLICABLE = {}
 
 # decidable per-operation forms of the properties (coq/Model/Monitors.v), evaluated on the implementation's observed
 # snapshots: they turn a broken correspondence into a concrete failing history
-for _k, _m in {"C10": "mon_C10", "C07": "mon_C07", "C02": "mon_C02w", "C09": "mon_C09", "C12": "mon_C12r", "C13": "mon_C13", "C03": "mon_C03", "C04": "mon_C04", "C06": "mon_C06w", "C08": "mon_C08r", "C11": "mon_C11c",
+for _k, _m in {"C10": "mon_C10", "C07": "mon_C07q", "C02": "mon_C02w", "C09": "mon_C09", "C12": "mon_C12r", "C13": "mon_C13", "C03": "mon_C03", "C04": "mon_C04", "C06": "mon_C06w", "C08": "mon_C08r", "C11": "mon_C11c",
                "C14": "mon_C14s", "C15": "mon_C15r", "C16": "mon_C16c", "C17": "mon_C17", "C20": "mon_C20f"}.items():
     PROPS[_k]["monitor"] = _m
 
@@ -227,8 +227,8 @@ _EXTRA3 = {
  "C11": "OVER HISTORIES (FarmsSafe.v, C11_others_cannot_touch_a_farm / ..._in_any_reachable_world): through ANY history of operations none of which is signed by o (a user address) - every call between the contracts, replies, rejected operations, injected faults - every farm owned by o in the final world was already his at the start, with the same identifier, LP denom, reward denom and budget, emission rate, start and end; only the claimed amount may have grown. Nobody else can create a farm in his name, expand or otherwise alter it (it may only disappear: closed by the contract owner or swept on expiry, refunding o). Kernel-evaluated example: C11_farms_example.",
  "C05": "THE 'HENCE' (Redeemable.v, C05_closed_position_withdrawal_transaction_succeeds): in every world reachable from genesis with no fault being injected, the withdrawal TRANSACTION of a closed position whose unlock instant has been reached, sent by its owner, SUCCEEDS - the handler accepts it and the farm manager's balance covers the transfer of the whole recorded amount (side conditions of a real bank: the owner is not the farm manager, his balance is non-negative and stays within u128). Kernel-evaluated example: C05_redeem_example. The analogous success statement for farm refunds is not proved (a failing refund is tolerated by design, C20).",
  "C20": "Monitor mon_C20f on the implementation: a rejected operation leaves the whole snapshot unchanged, and a transaction ACCEPTED while an injected fault was pending (the only tolerated internal failure being a close-farm refund) is fully consistent - the pool manager's excess moves only as C01 allows, reserves stay backed, the farm manager's custody holds; a swap that commits although one of its transfers failed shows up as a concrete failing history.",
- "C06": "OVER HISTORIES (CursorSafe.v, C06_claim_cursor_moves_only_by_its_owner): a user's claim cursor moves only through his own transactions - through any history of operations he does not sign it is exactly what it was, so nobody else can rewind it (an epoch payable twice) or advance it (epochs lost). Kernel-evaluated example: C06_cursor_example.",
- "C07": "OVER HISTORIES (CursorSafe.v, C07_claim_cursor_moves_only_by_its_owner): through any history of operations a user does not sign, his claim cursor is exactly what it was - the span of epochs his next claim covers is decided by his own claims alone. Kernel-evaluated example: C07_cursor_example.",
+ "C06": "OVER HISTORIES (CursorSafe.v, C06_claim_cursor_moves_only_by_its_owner): a user's claim cursor moves only through his own transactions - through any history of operations he does not sign it is exactly what it was, so nobody else can rewind it (an epoch payable twice) or advance it (epochs lost). Kernel-evaluated example: C06_cursor_example. Monitor mon_C06w also bounds every Rewards QUERY answer of that class by the weight share (weights 0 before the user's first entry; the current epoch followed through the block changes): nobody is quoted, hence paid, for an epoch before his weight took effect.",
+ "C07": "OVER HISTORIES (CursorSafe.v, C07_claim_cursor_moves_only_by_its_owner): through any history of operations a user does not sign, his claim cursor is exactly what it was - the span of epochs his next claim covers is decided by his own claims alone. Kernel-evaluated example: C07_cursor_example. Monitor mon_C07q: in the covered class every entry of a Rewards QUERY answer equals the weight share of its denom, like the payout of a Claim.",
  "C12": "Monitor mon_C12r on the implementation also covers the reverse-quote clause on whole pools: a Simulation of (ReverseSimulation quote + 1) issued right after the quote on a constant-product pool returns at least the requested amount, for requests up to 10^18 units (the pool scenarios issue this pair for every reverse quote, pools with mixed decimals included).",
  "C09": "Monitor mon_C09 also checks the split on the implementation: after an accepted emergency withdrawal the penalty goes only to the configured fee collector and to owners of farms on that LP denom, in EQUAL shares per distinct owner, nobody loses anything, and what leaves the farm manager is exactly payout + shares and at most the recorded amount.",
  "C14": "Monitor mon_C14s also checks on the implementation that an accepted single-asset deposit creates or changes only positions owned by its sender, and that a requested lock produces such a position.",
